@@ -124,3 +124,17 @@ impl Args {
         self.0.iter().any(|a| *a == k)
     }
 }
+
+/// hang localisation: the index of the case that is about to run is written (fixed width, in place) to the
+/// file named by A2LVERIF_PROGRESS; a watchdog in the driver kills the process when the file stops changing
+pub fn progress(n: usize) {
+    use std::os::unix::fs::FileExt;
+    use std::sync::{Mutex, OnceLock};
+    static FILE: OnceLock<Mutex<Option<std::fs::File>>> = OnceLock::new();
+    let cell = FILE.get_or_init(|| Mutex::new(std::env::var("A2LVERIF_PROGRESS").ok().and_then(|p| std::fs::File::create(p).ok())));
+    if let Ok(guard) = cell.lock() {
+        if let Some(f) = guard.as_ref() {
+            let _ = f.write_at(format!("{n:>12}\n").as_bytes(), 0);
+        }
+    }
+}
